@@ -17,6 +17,8 @@ LEVEL = "other"
 def run(chk):
     cfgs = ["base", "z"]
     chk.configs = cfgs
+    chk.rule("WRAP.no-passthrough", "Intersect / Union / Difference / Xor / BooleanOp never hand one of their path parameters back as the result (unless known "
+             "empty): the result is what the sweep produced under the fill rule")
     chk.rule("FLOAT.double-only", "no float-typed expression and no single-precision math function in any library function")
     chk.rule("POLY.intersect", "GetSegmentIntersectPt (both precision variants): as a real-number formula the stored point lies on the lines through both "
              "segments, and 'parallel' is reported iff the cross product of the directions vanishes (identity of polynomial normal forms)")
@@ -46,6 +48,8 @@ def run(chk):
         e3.axis_mirror_rule(db, chk, cfg)
         e3.no_single_precision(db, chk, cfg)
         e3.closing_vertex_rule(db, chk, cfg)
+        from ..engines import e8_scale as _e8
+        _e8.rule_no_passthrough(db, chk, cfg)
         from ..engines import e14_poly as e14
         e14.rule_intersect(db, chk, cfg)
         e9.rule_wide_kept(db, chk, cfg)
